@@ -94,6 +94,12 @@ func (x *Exec) instr(fr *Frame, st *State, ins ssa.Instruction) error {
 		return nil
 	case *ssa.Alloc:
 		et := t.Type().Underlying().(*types.Pointer).Elem()
+		if at, isArr := et.Underlying().(*types.Array); isArr {
+			// arrays are modelled as backing objects of slices, whether or not they escape
+			sl := x.newSlice(st, at.Elem(), u.IntC(at.Len()), u.IntC(at.Len()), true)
+			fr.regs[t] = Val{T: t.Type(), S: []Term{sl.S[0]}}
+			return nil
+		}
 		if !t.Heap {
 			name := t.Comment
 			if name == "" {
@@ -255,7 +261,9 @@ func (x *Exec) instr(fr *Frame, st *State, ins ssa.Instruction) error {
 		case *types.Pointer:
 			at := tt.Elem().Underlying().(*types.Array)
 			x.oblig("index", t.Pos(), "array index in range", st.PC, And(u.ILe(u.IntC(0), idx), u.ILt(idx, u.IntC(at.Len()))))
-			if xv.P != nil && len(xv.P.Alts) == 1 {
+			if xv.P == nil {
+				fr.regs[t] = Val{T: t.Type(), P: ptrTo(Addr{Kind: AElem, T: at.Elem(), Ref: xv.One(), Idx: idx, ElemT: at.Elem()})}
+			} else if xv.P != nil && len(xv.P.Alts) == 1 {
 				k, ok := constOf(idx)
 				if !ok {
 					return engineErr("%s: array indexed by a non-constant", x.fnShort(fr.fn))
@@ -930,7 +938,21 @@ func (x *Exec) slice(fr *Frame, st *State, t *ssa.Slice) error {
 		fr.regs[t] = Val{T: t.Type(), S: []Term{ptr, noff, nln, ncp}}
 		return nil
 	case KPtrCell, KPtrStruct:
-		return engineErr("%s: slicing a pointer to array is unsupported", x.fnShort(fr.fn))
+		pt := t.X.Type().Underlying().(*types.Pointer)
+		at, ok := pt.Elem().Underlying().(*types.Array)
+		if !ok || xv.P != nil {
+			return engineErr("%s: slicing a pointer to array is unsupported here", x.fnShort(fr.fn))
+		}
+		n := u.IntC(at.Len())
+		if !hasHi {
+			hi = n
+		}
+		if !hasMax {
+			mx = n
+		}
+		x.oblig("slice", t.Pos(), "array slice bounds", st.PC, And(u.ILe(u.IntC(0), lo), u.ILe(lo, hi), u.ILe(hi, mx), u.ILe(mx, n)))
+		fr.regs[t] = Val{T: t.Type(), S: []Term{xv.One(), lo, u.Define("len", u.ISub(hi, lo)), u.Define("cap", u.ISub(mx, lo))}}
+		return nil
 	}
 	return engineErr("slice of %s", t.X.Type())
 }
